@@ -2526,8 +2526,10 @@ where
     /// Maximum - provided it was counted on this connection (an exchange continued from an
     /// earlier connection by a PUBREL of the application never was)
     fn uncount_publish_send(&mut self, packet_id: PacketIdType) {
-        if self.publish_send_counted.remove(&packet_id) && self.publish_send_count > 0 {
-            self.publish_send_count -= 1;
+        if self.publish_send_counted.remove(&packet_id) {
+            // With 32-bit packet ids a resumed session can hold more exchanges than the counter
+            // can: it stays saturated until fewer than that are left
+            self.publish_send_count = self.publish_send_counted.len().min(u16::MAX as usize) as u16;
         }
     }
 
